@@ -40,6 +40,7 @@ def plan(tier, seed):
         specs += [{"kind": "catsp", "i": 300 + i, "count": 25, "_budget_s": 60} for i in range(8)]
         # wide species trees (6-8 leaves, several levels): placements two or more levels below a donor, in another branch
         specs += [{"kind": "rand", "i": 100 + i, "count": 40, "max_obj": 4, "min_obj": 3, "max_sp": 8, "min_sp": 6, "max_fam": 2, "consistent_p": 1.0, "root_order_p": 0.1} for i in range(8)]
+        specs += [{"kind": "rand", "i": 400 + i, "count": 80, "max_obj": 6, "min_obj": 4, "max_sp": 3, "min_sp": 2, "max_fam": 2, "consistent_p": 1.0, "root_order_p": 0.1, "cheap_hgt": True} for i in range(8)]
         return specs
     specs = [{"kind": "exh", "i": i, "n": 32, "max_obj": 3, "max_sp": 3, "nfam": 2, "ncost": 10} for i in range(32)]
     specs += [{"kind": "rand", "i": i, "count": 300, "max_obj": 5, "max_sp": 4, "max_fam": 5, "consistent_p": 0.9} for i in range(32)]
@@ -47,6 +48,7 @@ def plan(tier, seed):
     specs += [{"kind": "catsp", "i": 300 + i, "count": 250, "_budget_s": 900} for i in range(16)]
     specs += [{"kind": "deep", "i": 200 + i, "count": 300, "min_obj": 8, "max_obj": 11, "max_fam": 5, "max_sp": 5, "_budget_s": 900} for i in range(16)]
     specs += [{"kind": "rand", "i": 100 + i, "count": 300, "max_obj": 4, "min_obj": 3, "max_sp": 9, "min_sp": 6, "max_fam": 2, "consistent_p": 1.0, "root_order_p": 0.1} for i in range(16)]
+    specs += [{"kind": "rand", "i": 400 + i, "count": 500, "max_obj": 6, "min_obj": 4, "max_sp": 4, "min_sp": 2, "max_fam": 3, "consistent_p": 1.0, "root_order_p": 0.1, "cheap_hgt": True} for i in range(16)]
     return specs
 
 
